@@ -3,6 +3,8 @@ pub mod c02;
 pub mod c03;
 pub mod c04;
 pub mod c05;
+pub mod c06;
+pub mod c07;
 pub mod c08;
 pub mod c09;
 pub mod c10;
@@ -21,6 +23,10 @@ pub fn run(id: &str, replay: Option<&str>) -> i32 {
         ("C01", Some(p)) => c01::replay(p),
         ("C02", None) => c02::run(started),
         ("C02", Some(p)) => c02::replay(p, c02::Which::C02),
+        ("C06", None) => c06::run(started),
+        ("C06", Some(p)) => c06::replay(p),
+        ("C07", None) => c07::run(started),
+        ("C07", Some(p)) => c07::replay(p),
         ("C08", None) => c08::run(started),
         ("C08", Some(p)) => c08::replay(p),
         ("C09", None) => c09::run(started),
